@@ -28,7 +28,7 @@ section field
 variable {K : Type} [Field K]
 
 theorem DMerc_sum (o : Ops K) (i : In K) :
-    DMerc_times_r2 o i = DWell_times_r2 o i + DGeod_times_r2 o i := rfl
+    DMerc_times_r2 o i = DWell_times_r2 o i + DGeod_times_r2 o i := by unfold DMerc_times_r2; ring
 
 theorem d2_volume_formula (o : Ops K) (i : In K) :
     d2_volume_d_psi2 o i
